@@ -37,6 +37,9 @@ type Update struct {
 	Target string
 	Ignore bool // ignore-failure
 	Sets   []Op
+	// Shape of an update that sets nothing: 0 = no linux section, 1 = linux section without resources,
+	// 2 = empty resources (how the message is spelled; the model does not look at it)
+	Shape int
 }
 
 // Response of one plugin. Adjust is only meaningful for create requests.
